@@ -114,7 +114,43 @@ def one_line(n: ast.AST) -> str:
     return " ".join(src(n).split())
 
 
+_RX_IDENT = re.compile(r"(?<![\w.\\'\"])([A-Za-z_]\w*)(?![\w])(?!\\\()")
+
+
+def loosen(v: FnView, pattern: str) -> str | None:
+    """The pattern with every identifier the function no longer contains (a renamed local) replaced
+    by `\\w+`; None when it mentions no such identifier."""
+    from ..gates import fn_names
+
+    names = fn_names(v) | {a.attr for a in ast.walk(v.fn.node) if isinstance(a, ast.Attribute)}
+    hit = False
+    kept = 0
+
+    def rep(m: re.Match) -> str:
+        nonlocal hit, kept
+        if m.group(1) in names:
+            kept += 1
+        if m.group(1) in names or m.group(1) in ("None", "True", "False", "if", "else", "for", "in", "not", "and", "or", "is", "while", "return", "lambda"):
+            return m.group(1)
+        hit = True
+        return r"\w+"
+
+    out = _RX_IDENT.sub(rep, pattern)
+    kept += len(re.findall(r"\\\.[A-Za-z_]\w*", pattern))  # attribute / method names stay literal
+    return out if hit and kept else None  # a pattern left without any literal name would match anything
+
+
 def find_targets(v: FnView, kind: str, pattern: str, arms_fallback: bool = False) -> list[ast.AST]:
+    out = _find_targets(v, kind, pattern, arms_fallback)
+    if not out and (loose := loosen(v, pattern)) is not None:
+        try:
+            out = _find_targets(v, kind, loose, arms_fallback)
+        except re.error:
+            out = []
+    return out
+
+
+def _find_targets(v: FnView, kind: str, pattern: str, arms_fallback: bool = False) -> list[ast.AST]:
     rx = re.compile(pattern)
     if kind == "stmt":
         cands = v.find(lambda n: isinstance(n, SIMPLE))
@@ -241,7 +277,7 @@ def _run_one(prog: Program, report: Report, g) -> int:
                 gots = [canon(c) for c in cands]
                 # hoisted sub-expressions: both sides with every single-assignment local replaced by its definition
                 full = canon(v.res.expr(e, 6)) == canon(v.res.expr(want_ast, 6))
-                if want in gots or full or _equal_modulo_rename(v, want_ast, e, canon):
+                if want in gots or full or _equal_modulo_rename(v, want_ast, cands, canon):
                     report.ob(g.rule, g.fn, f"{g.why.split(';')[0]}: `{one_line(e)[:70]}` = {want}")
                 elif not any(kind_of(c) == kind_of(want_ast) for c in cands):
                     # a different construct: unrecognised idiom for this target only (other targets are still judged)
@@ -249,6 +285,8 @@ def _run_one(prog: Program, report: Report, g) -> int:
                     if g.rule == "RV-auto":
                         raise AnalysisError(msg + " found 0 time(s) of the reviewed construct")
                     report.errors.append(msg)
+                elif _gone_names(v, want_ast):
+                    raise AnalysisError(f"{g.rule}: {g.fn}: `{one_line(e)[:60]}` cannot be compared with the documented formula `{want[:60]}`: it mentions {_gone_names(v, want_ast)}, found 0 time(s) in the function now (renamed or restructured)")
                 else:
                     report.violate(g.rule, v.fn, t, f"{g.why.split(';')[0]}: {one_line(t)[:100]}", f"{g.why}; the expression normalises to `{gots[0]}` but the documented formula is `{want}`", what=f"/{g.target}/ = {want}")
         elif isinstance(g, Form):
@@ -280,8 +318,13 @@ def _run_one(prog: Program, report: Report, g) -> int:
                             texts.append(rv)
                         elif isinstance(t, ast.Assign) and len(t.targets) == 1:
                             texts.append(f"{one_line(t.targets[0])} = {rv}")
-                if any(rx.search(x) for x in texts):
+                loose = None
+                if not any(rx.search(x) for x in texts):
+                    loose = loosen(v, g.form)
+                if any(rx.search(x) for x in texts) or (loose is not None and any(re.search(loose, x) for x in texts)):
                     report.ob(g.rule, g.fn, f"{g.why.split(';')[0]}: [{text[:80]}] has the required form")
+                elif loose is not None:
+                    raise AnalysisError(f"{g.rule}: {g.fn}: the form of `{text[:60]}` cannot be compared: the reviewed form mentions an identifier found 0 time(s) in the function now (renamed or restructured)")
                 else:
                     report.violate(g.rule, v.fn, t, f"{g.why.split(';')[0]}: {text[:100]}", f"{g.why}; found `{text[:100]}`", what=f"/{g.target}/ has form /{g.form}/")
         else:
@@ -309,28 +352,39 @@ def _run_one(prog: Program, report: Report, g) -> int:
     return n
 
 
-def _equal_modulo_rename(v: FnView, want_ast: ast.expr, e: ast.expr, canon) -> bool:
-    """The formula mentions locals that no longer exist in the function while the expression
-    mentions as many names the formula does not know: a renamed local, not a changed term
-    (a swap of two existing names keeps both names in the function and is not excused)."""
+def _gone_names(v: FnView, want_ast: ast.expr) -> list[str]:
+    from ..gates import fn_names
+
+    return sorted({n.id for n in ast.walk(want_ast) if isinstance(n, ast.Name)} - fn_names(v))
+
+
+def _equal_modulo_rename(v: FnView, want_ast: ast.expr, cands: list, canon) -> bool:
+    """The formula mentions locals that no longer exist in the function (renamed, or inlined into
+    their only use): they are pattern variables that may stand for any one sub-expression of the
+    statement, consistently.  A swap of two names that both still exist is not excused."""
     import itertools
 
-    fn_names = {n.id for n in ast.walk(v.fn.node) if isinstance(n, ast.Name)} | {a.arg for a in ast.walk(v.fn.node) if isinstance(a, ast.arg)}
-    want_names = [n.id for n in ast.walk(want_ast) if isinstance(n, ast.Name)]
-    gone = sorted({n for n in want_names if n not in fn_names})
-    new = sorted({n.id for n in ast.walk(e) if isinstance(n, ast.Name)} - set(want_names))
-    if not gone or len(gone) != len(new) or len(gone) > 3:
-        return False
     from ..norm import clone
 
-    got = canon(e)
-    for perm in itertools.permutations(new):
-        m = dict(zip(gone, perm))
-        w = clone(want_ast)
-        for n in ast.walk(w):
-            if isinstance(n, ast.Name) and n.id in m:
-                n.id = m[n.id]
-        if canon(w) == got:
+    gone = _gone_names(v, want_ast)
+    if not gone or len(gone) > 2:
+        return False
+    gots = {canon(c) for c in cands}
+    subs: dict[str, ast.expr] = {}
+    for c in cands:
+        for x in ast.walk(c):
+            if isinstance(x, (ast.Name, ast.Attribute, ast.Call, ast.Subscript)) and isinstance(getattr(x, "ctx", ast.Load()), ast.Load):
+                subs.setdefault(canon(x), x)
+    pool = list(subs.values())[:60]
+    for combo in itertools.product(pool, repeat=len(gone)):
+        m = dict(zip(gone, combo))
+
+        class T(ast.NodeTransformer):
+            def visit_Name(self, node: ast.Name) -> ast.AST:
+                return clone(m[node.id]) if node.id in m else node
+
+        w = T().visit(clone(want_ast))
+        if canon(w) in gots:
             return True
     return False
 
